@@ -1,7 +1,7 @@
 """Per-property plan: which engines run besides the contract/lemma obligations tagged with the property."""
 
 PLAN = {
-    'C01': dict(level='proof', engines=['sumlib']),
+    'C01': dict(level='proof', engines=['sumlib', 'segnative']),
     'C02': dict(level='proof', engines=[]),
     'C03': dict(level='proof', engines=['bundles']),
     'C04': dict(level='proof', engines=['keynative', 'matchnative']),
@@ -12,7 +12,7 @@ PLAN = {
                             'verified against deductively (see C01/C04/C06/C07/C08 evidence).'),
     'C06': dict(level='proof', engines=['forward', 'segnative']),
     'C07': dict(level='proof', engines=[]),
-    'C08': dict(level='proof', engines=[]),
+    'C08': dict(level='proof', engines=['segnative']),
     'C09': dict(level='proof', engines=['chordnative', 'keynative']),
     'C10': dict(level='proof', engines=['chordre']),
     'C11': dict(level='proof', engines=['chordnative']),
